@@ -85,7 +85,7 @@ postfix_expr:
 				yylex.Error(errLValue($2))
 			} else if n, ok := expand(yylex, $1); ok {
 				$$.n = n
-				yylex.(*lexer).env.Set($1.s, strconv.Itoa($$.n + 1))
+				set(yylex, $1.s, strconv.Itoa($$.n + 1))
 			}
 		}
 	|	postfix_expr DEC
@@ -95,7 +95,7 @@ postfix_expr:
 				yylex.Error(errLValue($2))
 			} else if n, ok := expand(yylex, $1); ok {
 				$$.n = n
-				yylex.(*lexer).env.Set($1.s, strconv.Itoa($$.n - 1))
+				set(yylex, $1.s, strconv.Itoa($$.n - 1))
 			}
 		}
 
@@ -108,7 +108,7 @@ unary_expr:
 				yylex.Error(errLValue($1))
 			} else if n, ok := expand(yylex, $2); ok {
 				$$.n = n + 1
-				yylex.(*lexer).env.Set($2.s, strconv.Itoa($$.n))
+				set(yylex, $2.s, strconv.Itoa($$.n))
 			}
 		}
 	|	DEC      unary_expr
@@ -118,7 +118,7 @@ unary_expr:
 				yylex.Error(errLValue($1))
 			} else if n, ok := expand(yylex, $2); ok {
 				$$.n = n - 1
-				yylex.(*lexer).env.Set($2.s, strconv.Itoa($$.n))
+				set(yylex, $2.s, strconv.Itoa($$.n))
 			}
 		}
 	|	unary_op unary_expr
@@ -291,7 +291,7 @@ expr:
 					$$, ok = calculate(yylex, $1, $2[:len($2)-1], $3)
 				}
 				if ok {
-					yylex.(*lexer).env.Set($1.s, strconv.Itoa($$.n))
+					set(yylex, $1.s, strconv.Itoa($$.n))
 				}
 			}
 		}
@@ -372,6 +372,13 @@ func errLValue(op string) string {
 	return fmt.Sprintf("'%v' requires lvalue", op)
 }
 
+// set assigns value to the variable unless an error has been reported.
+func set(yylex yyLexer, name, value string) {
+	if !yylex.(*lexer).failed {
+		yylex.(*lexer).env.Set(name, value)
+	}
+}
+
 func expand(yylex yyLexer, x expr) (int, bool) {
 	if x.s == "" {
 		return x.n, true
@@ -448,11 +455,11 @@ func (env *ExecEnv) Eval(expr string) (n int, err error) {
 	defer func() {
 		if e := recover(); e != nil {
 			l.Error(e.(error).Error())
-			err = l.err
 		}
+		err = l.wait()
 	}()
 
 	yyParse(l)
 	verifPoint(l, EvParseExit)
-	return l.n, l.err
+	return l.n, nil
 }
